@@ -1,5 +1,5 @@
 (* C17 correspondence: race-detector scenarios run by harness/c17 against the real services. *)
-From Verif Require Export Lib.Base Lib.Lockset Lib.LocksetX Gen.C17_Extracted Model.C17_Snapshot.
+From Verif Require Export Lib.Base Lib.Lockset Lib.LocksetX Lib.Atomic Gen.C17_Extracted Model.C17_Snapshot Model.C17_Cache.
 From Coq Require Export String.
 
 Record case := {
@@ -15,7 +15,10 @@ Record case := {
   c_active : list N;                    (* validators that the validators-manager mock reports as validating *)
   c_requested : list N;                 (* indices asked for by the ByIndex lookups *)
   c_answers : list (list (N * bool));       (* distinct answers of ValidatingAccountsForEpoch: (validator, account present), sorted *)
-  c_answers_idx : list (list (N * bool))    (* distinct answers of ValidatingAccountsForEpochByIndex *)
+  c_answers_idx : list (list (N * bool));   (* distinct answers of ValidatingAccountsForEpochByIndex *)
+  (* cache history scenarios only (empty otherwise): every completed operation on a tracked root and every clean,
+     with invocation / response stamps (Model/C17_Cache.v) *)
+  c_history : list hop
 }.
 
 (* ---- snapshot model (Model/C17_Snapshot.v) on the churn data ---- *)
@@ -49,7 +52,16 @@ Definition service_ok (name : string) : bool :=
 (* the property on the observed run alone: no unsynchronised conflicting access was observed,
    every operation finished (no lock was left held), and no operation panicked on what it saw.
    (The skeleton model has no values: it predicts races and hangs, not crashes; `agree` is silent on c_crash.) *)
-Definition P_b (c : case) : bool := negb (c_race c) && negb (c_hang c) && negb (c_crash c) && answers_whole c.
+(* … and every lookup result of an observed cache history is one that SOME sequential order of the overlapping
+   operations (respecting what had returned before what was called) can produce: a root whose mapping was set
+   (or fetched from the node) before the lookup began is found unless a clean whose minimum slot is above its
+   slot may sit in between (no lost update); a slot that is found was put there and not since removed by a clean
+   that ran wholly in between.  Stated on the observed history with the property's own notion of what a clean
+   may remove (entries below its minimum slot), not through the model. *)
+Definition history_sequential (c : case) : bool := lin_ok_with (fun min v => v <? min) (c_history c).
+
+Definition P_b (c : case) : bool :=
+  negb (c_race c) && negb (c_hang c) && negb (c_crash c) && answers_whole c && history_sequential c.
 
 Definition service_known (name : string) : bool :=
   existsb (fun '(n, _, _, _, _) => String.eqb n name) services.
@@ -85,7 +97,9 @@ Definition agree (c : case) : bool :=
   implb (service_ok (c_service c) && locals_ok (c_service c)) (negb (c_race c)) &&
   implb (service_ok (c_service c) && locals_ok (c_service c) &&
          service_order_ok (c_service c) && locals_order_ok (c_service c)) (negb (c_hang c)) &&
-  service_known (c_service c) && answers_agree c.
+  service_known (c_service c) && answers_agree c &&
+  (* the cache model (Model/C17_Cache.v, one section per operation) explains every lookup of the observed history *)
+  lin_ok (c_history c).
 
 Definition mismatches (cs : list case) : list N := failing_ids c_id agree cs.
 Definition violations (cs : list case) : list N := failing_ids c_id P_b cs.
@@ -96,6 +110,11 @@ Definition tree_report :=
          let '(bad, cf) := report sk sg g e in
          (n, analysis_ok sk sg g e, bad, nodup N.eq_dec (map (fun '((f1, _, _, _), _) => f1) cf),
           discipline_ok sk sg (graph_accesses g e), lock_order_ok g e)) services.
+
+(* per service: the derived (read, write) pairs that the atomicity check rejects (Lib/Atomic.v): the write of a
+   value computed from a read of the same field, with the field's guard released in between *)
+Definition tree_atomic :=
+  map (fun '(n, g, e, sk, sg) => (n, atomic_bad sk sg g e (pairs_of n derived_pairs))) services.
 
 (* the (field, mutex) guard pairs of every service *)
 Definition tree_guards :=
